@@ -186,7 +186,8 @@ theorem text_leaf {f : Forest} (w : f.W) {x : Nat} {s : Str} (e : f.textOf x = s
 theorem merge_spec {f : Forest} (w : f.W) {target src : Nat} {a b : Str} (v : Str)
     (ht : f.textOf target = some a) (hs : f.textOf src = some b) :
     ((f.setValue target (.text v)).spliceOut src).W ∧
-    Frame f ((f.setValue target (.text v)).spliceOut src) [src] := by
+    Frame f ((f.setValue target (.text v)).spliceOut src) [src] ∧
+    ((f.setValue target (.text v)).spliceOut src).isLive src = false := by
   obtain ⟨tt, htg, htk, _⟩ := text_leaf w ht
   have w0 : (f.setValue target (.text v)).W := setValue_W w target _ (fun t e => by
     rw [htg] at e; injection e with e; subst e; exact Or.inl htk)
@@ -199,9 +200,12 @@ theorem merge_spec {f : Forest} (w : f.W) {target src : Nat} {a b : Str} (v : St
     · simp only [hst, if_false]; rw [textOf_value hs]; exact ⟨b, by simp⟩
   obtain ⟨s', hs0⟩ := hs0
   obtain ⟨ts, hsg, hsk, hsh⟩ := text_leaf w0 hs0
-  obtain ⟨w1, _, fr1⟩ := spliceOut_spec w0 hsg (fun _ => by rw [hsk]; exact Nat.zero_le _)
+  obtain ⟨w1, hcnt, fr1⟩ := spliceOut_spec w0 hsg (fun _ => by rw [hsk]; exact Nat.zero_le _)
   rw [hsh] at fr1
-  exact ⟨w1, (fr0.trans fr1).mono (fun x hx => by simpa using hx)⟩
+  refine ⟨w1, (fr0.trans fr1).mono (fun x hx => by simpa using hx), ?_⟩
+  cases hl : ((f.setValue target (.text v)).spliceOut src).isLive src with
+  | false => rfl
+  | true => exact absurd (List.mem_singleton.2 rfl) ((isLive_of_count w0 hcnt src).1 hl).2
 
 theorem removeConsolidate_spec {f : Forest} (w : f.W) (prev next : Option Nat) :
     (f.removeConsolidate prev next).1.W ∧
@@ -227,21 +231,26 @@ theorem removeConsolidate_spec {f : Forest} (w : f.W) (prev next : Option Nat) :
           cases hn : f.textOf n with
           | none => exact ⟨w, fun _ => rfl, [], by simp, Frame.refl _ _⟩
           | some ns =>
-            obtain ⟨w1, fr⟩ := merge_spec w (ps ++ ns) hp hn
+            obtain ⟨w1, fr, _⟩ := merge_spec w (ps ++ ns) hp hn
             refine ⟨w1, (fun h => by cases h), [n], ?_, fr⟩
             intro x hx; simp only [List.mem_singleton] at hx; subst hx; simp [hn]
 
 theorem addConsolidate_spec {f : Forest} (w : f.W) (node : Nat) (prev next : Option Nat) :
     (f.addConsolidate node prev next).1.W ∧
     ((f.addConsolidate node prev next).2 = false → (f.addConsolidate node prev next).1 = f) ∧
-    Frame f (f.addConsolidate node prev next).1 [node] := by
+    Frame f (f.addConsolidate node prev next).1 [node] ∧
+    ((f.addConsolidate node prev next).2 = true →
+      (f.addConsolidate node prev next).1.isLive node = false) := by
+  have trivialCase : (f, false).1.W ∧ ((f, false).2 = false → (f, false).1 = f) ∧
+      Frame f (f, false).1 [node] ∧ ((f, false).2 = true → (f, false).1.isLive node = false) :=
+    ⟨w, fun _ => rfl, Frame.refl _ _, fun h => by cases h⟩
   unfold addConsolidate
   cases hc : f.consolidation with
-  | false => exact ⟨w, fun _ => rfl, Frame.refl _ _⟩
+  | false => exact trivialCase
   | true =>
     simp only [Bool.not_true, Bool.false_eq_true, if_false]
     cases ha : f.textOf node with
-    | none => exact ⟨w, fun _ => rfl, Frame.refl _ _⟩
+    | none => exact trivialCase
     | some added =>
       simp only
       have viaNext : (match next with
@@ -262,16 +271,25 @@ theorem addConsolidate_spec {f : Forest} (w : f.W) (node : Nat) (prev next : Opt
           | some n => (match f.textOf n with
               | some ns => ((f.setValue n (.text (added ++ ns))).spliceOut node, true)
               | none => (f, false))
-          | none => (f, false)).1 [node] := by
+          | none => (f, false)).1 [node] ∧
+          ((match next with
+          | some n => (match f.textOf n with
+              | some ns => ((f.setValue n (.text (added ++ ns))).spliceOut node, true)
+              | none => (f, false))
+          | none => (f, false)).2 = true → (match next with
+          | some n => (match f.textOf n with
+              | some ns => ((f.setValue n (.text (added ++ ns))).spliceOut node, true)
+              | none => (f, false))
+          | none => (f, false)).1.isLive node = false) := by
         cases next with
-        | none => exact ⟨w, fun _ => rfl, Frame.refl _ _⟩
+        | none => exact trivialCase
         | some n =>
           simp only
           cases hn : f.textOf n with
-          | none => exact ⟨w, fun _ => rfl, Frame.refl _ _⟩
+          | none => exact trivialCase
           | some ns =>
-            obtain ⟨w1, fr⟩ := merge_spec w (added ++ ns) hn ha
-            exact ⟨w1, (fun h => by cases h), fr⟩
+            obtain ⟨w1, fr, hd⟩ := merge_spec w (added ++ ns) hn ha
+            exact ⟨w1, (fun h => by cases h), fr, fun _ => hd⟩
       cases prev with
       | none => exact viaNext
       | some p =>
@@ -279,8 +297,8 @@ theorem addConsolidate_spec {f : Forest} (w : f.W) (node : Nat) (prev next : Opt
         cases hp : f.textOf p with
         | none => exact viaNext
         | some ps =>
-          obtain ⟨w1, fr⟩ := merge_spec w (ps ++ added) hp ha
-          exact ⟨w1, (fun h => by cases h), fr⟩
+          obtain ⟨w1, fr, hd⟩ := merge_spec w (ps ++ added) hp ha
+          exact ⟨w1, (fun h => by cases h), fr, fun _ => hd⟩
 
 end Forest
 end XotModel
